@@ -152,8 +152,27 @@ func c13R2(c *Ctx, id string) {
 			return
 		}
 		c.check(id+":(*DB).loadFreelist:once", lf, lf.Pos(), "the free list is loaded at most once per DB (sync.Once)", true, "")
-		inits := callsIn(body, "freelist.Interface.Init")
-		reads := callsIn(body, "freelist.ReadWriter.Read")
+		// the choice may live in a helper called from the Once body: look one and two levels down
+		holder := body
+		cands := []*ssa.Function{body}
+		for depth := 0; depth < 2; depth++ {
+			var next []*ssa.Function
+			for _, f := range cands {
+				if len(callsIn(f, "freelist.Interface.Init")) > 0 && len(callsIn(f, "freelist.ReadWriter.Read")) > 0 {
+					holder = f
+				}
+				eachInstr(f, func(in ssa.Instruction) {
+					if call, ok := in.(*ssa.Call); ok {
+						if g := calleeOf(call).Static; g != nil && fnPkg(g) != nil && fnPkg(g).Path() == rootPkg && len(g.Blocks) > 0 {
+							next = append(next, g)
+						}
+					}
+				})
+			}
+			cands = next
+		}
+		inits := callsIn(holder, "freelist.Interface.Init")
+		reads := callsIn(holder, "freelist.ReadWriter.Read")
 		ok := len(inits) == 1 && len(reads) == 1
 		detail := fmt.Sprintf("%d Init, %d Read", len(inits), len(reads))
 		if ok {
@@ -196,6 +215,7 @@ func c13R2(c *Ctx, id string) {
 			// the freelist object comes from newFreelist(db.FreelistType)
 			okNew := false
 			for _, nf := range plainCallsIn(body, "bbolt.newFreelist") {
+				_ = holder
 				if pathOf(nf.Call.Args[0]).Names() == "FreelistType" {
 					okNew = true
 				}
